@@ -152,7 +152,7 @@ AP_FORMS = [(None, 'f'), ('false', 'f'), ('true', 'y'), ('"any"', 'y'), ('"strin
 # every type name of the vocabulary as written: the model maps the name (Model/OasTree.v ap_of_name)
 AP_FORMS += [('"%s"' % n, 'w' + n.encode().hex()) for n in ['any', 'enum', 'mixed', 'string', 'integer', 'float', 'decimal', 'boolean', 'null', 'array', 'object',
                                                               'email', 'uri', 'uuid', 'date', 'datetime', '@t', '@u', '@o', '@r']]
-TKEYS = ['"a"', '"b c"', '"\\u00e9"', '"k\\"q"', '"\\\\"', '"0"', '"#"', '"t\\tab"', '""']
+TKEYS = ['"a"', '"b c"', '"\\u00e9"', '"k\\"q"', '"\\\\"', '"0"', '"#"', '"t\\tab"', '""', '"@id"', '"@t"']    # quoted: plain keys, also when they look like type names
 
 
 # alternatives of an `or` rule over built-in types: (text in the schema, wire tokens, accepts(example literal)?)
@@ -451,6 +451,10 @@ class Prop:
                          '[\n  { // {additionalProperties: "%s"}\n    "k": { // {additionalProperties: "%s"}\n    }\n  }\n]',
                          '{\n  "m": { // {additionalProperties: "%s", optional: true}\n    @u: true\n  }\n}']:
                 cs.append(Case('oas ' + hx(form.replace('%s', tn)), 'additional-properties'))
+        # key shortcuts: the key of the example is the example of the key's type, whatever characters it has
+        for form in ['{\n  %s: 1\n}', '{\n  "a": true,\n  %s: [\n    1\n  ]\n}', '[\n  {\n    %s: "v" // {optional: true}\n  }\n]', '{ // {additionalProperties: "integer"}\n  %s: 2\n}']:
+            for k in ['@t', '@q', '@qq', '@bs']:
+                cs.append(Case('oas ' + hx(form % k), 'key-shortcuts'))
         # `or` over names and rule-sets (no references): whatever Check() accepts must convert, and the example must be valid
         for text in or_forms(rng, 500 if tier == 'quick' else 8000):
             cs.append(Case('oas ' + hx(text), 'or-forms'))
